@@ -291,6 +291,10 @@ class MChain:
     def inputs(self, o):
         return [self.by_name[i['target']] for i in self.mt_of(o).inputs if i['present']]
 
+    def read_inputs(self, o):
+        t = self.mt_of(o)
+        return [self.by_name[i['target']] for i in t.inputs if i['present'] and not model.unread(t, i)]
+
     def descendants(self, o):
         out, todo = set(), [o]
         while todo:
@@ -361,7 +365,7 @@ class StoreModel:
                                     'result changed')
         if o.persisting and self.loc(o) in self.store and not o.forced:
             return
-        for i in mch.inputs(o):
+        for i in mch.read_inputs(o):
             self.need(mch, i, acc)
         acc.append(o)
 
@@ -390,7 +394,7 @@ class StoreModel:
         t = mch.mt_of(o)
         ignored = {p['name'] for p in t.spec['params'] if p.get('ignore')}
         pv = {k: canon_param(v) for k, v in t.params.items() if k not in ignored}
-        present = [i for i in t.inputs if i['present']]
+        present = [i for i in t.inputs if i['present'] and not model.unread(t, i)]
         vals = []
         for i in present:
             io = mch.by_name[i['target']]
@@ -435,7 +439,7 @@ class StoreModel:
                 for x in pending:
                     xm = mch.owner(x)
                     for i_ in xm.mt_of(x).inputs:
-                        if i_['present']:
+                        if i_['present'] and not model.unread(xm.mt_of(x), i_):
                             io = xm.by_name[i_['target']]
                             if io.mem is None and io is not o and io.persisting and self.loc(io) in self.store \
                                     and not io.forced:
@@ -602,7 +606,7 @@ class StoreModel:
                         if len({l for l in self.store if l.startswith(d)}) >= 2:
                             cross = True
                 elif x in predicted:
-                    todo += mch.inputs(x)
+                    todo += mch.read_inputs(x)
             failed = self.consume_runs(mch, predicted, log, dict(info, requested=n))
             if failed is not None:
                 if err != 'InjectedFault':
@@ -737,6 +741,9 @@ class _Union:
 
     def inputs(self, o):
         return self.owner(o).inputs(o)
+
+    def read_inputs(self, o):
+        return self.owner(o).read_inputs(o)
 
 
 # ---- fresh-interpreter sessions ----------------------------------------------------------------------------------
